@@ -272,3 +272,6 @@ func (s LockSet) Names() []string {
 	sort.Strings(out)
 	return out
 }
+
+// LockOp classifies a call for rules: +1 acquire, -1 release, 0 other; with the key identifying the mutex.
+func LockOp(c *ssa.CallCommon) (int, string) { return lockOp(c) }
